@@ -143,12 +143,12 @@ type CFile struct {
 	NoPanic  []string
 }
 
-var clauseRe = regexp.MustCompile(`^(requires|ensures|defines|invariant|decreases|assert|assume|panics)(\[[A-Za-z0-9,]+\])?\s+(.*)$`)
+var clauseRe = regexp.MustCompile(`^(requires|relies|ensures|defines|invariant|decreases|assert|assume|panics)(\[[A-Za-z0-9,]+\])?\s+(.*)$`)
 var specRe = regexp.MustCompile(`^spec\s+([A-Za-z_][A-Za-z0-9_]*)\s*\(([^)]*)\)\s*([^=]+?)\s*(=\s*(.*))?$`)
 var lemmaRe = regexp.MustCompile(`^lemma(\[[A-Za-z0-9,]+\])?\s+([A-Za-z_][A-Za-z0-9_]*)\s*\(([^)]*)\)\s*(induct\s+([A-Za-z_][A-Za-z0-9_]*))?\s*$`)
 
 var topKeywords = []string{"typeinv ", "assume-typeinv ", "spec ", "axiom ", "lemma ", "lemma[", "func ", "extern ", "funcfield ", "functype ", "nopanic "}
-var subKeywords = []string{"requires", "ensures", "defines", "invariant", "decreases", "assert", "assume", "panics", "modifies", "pure", "loop ", "callsite ", "noswallow", "ghost ", "abstracts ", "maypanic", "before:", "after:", "uses ", "ignore ", "pattern ", "preserves ", "nullable ", "havoc ", "hint ", "exhaustive"}
+var subKeywords = []string{"requires", "relies", "ensures", "defines", "invariant", "decreases", "assert", "assume", "panics", "modifies", "pure", "loop ", "callsite ", "noswallow", "ghost ", "abstracts ", "maypanic", "before:", "after:", "uses ", "ignore ", "pattern ", "preserves ", "nullable ", "havoc ", "hint ", "exhaustive"}
 
 func startsWithAny(s string, ks []string) bool {
 	for _, k := range ks {
@@ -511,7 +511,10 @@ func ParseContractFile(path string) (*CFile, error) {
 					return nil, errf(l, "assume outside callsite")
 				}
 				curCS.Assume = append(curCS.Assume, c)
-			case c.Kind == "requires":
+			case c.Kind == "requires" || c.Kind == "relies":
+				// relies: a precondition that depends on the history of earlier
+				// calls (rely/guarantee): assumed at entry, never asserted at
+				// call sites, reported as an assumption in the evidence.
 				curF.Requires = append(curF.Requires, c)
 			case c.Kind == "ensures" || c.Kind == "panics" || c.Kind == "defines":
 				curF.Ensures = append(curF.Ensures, c)
